@@ -23,19 +23,27 @@ func (p *parser) parseFunction(isDecl, allowAnon bool) *Node {
 	return p.finish(n)
 }
 
+func (p *parser) noteFunctionKind(off int, async, gen bool) {
+	if async {
+		p.note(FeatAsyncFunction, off)
+	}
+	if gen {
+		p.note(FeatGenerator, off)
+		if async {
+			p.note(FeatAsyncGenerator, off)
+		}
+	}
+}
+
 // parseFunctionRest parses parameters and body into n.
 func (p *parser) parseFunctionRest(n *Node, async, gen bool) {
 	if async {
 		n.Flags |= FlagAsync
-		p.note(FeatAsyncFunction, n.Start)
 	}
 	if gen {
 		n.Flags |= FlagGenerator
-		p.note(FeatGenerator, n.Start)
-		if async {
-			p.note(FeatAsyncGenerator, n.Start)
-		}
 	}
+	p.noteFunctionKind(n.Start, async, gen)
 	oldCtx, oldIn := p.ctx, p.noIn
 	p.ctx = fnCtx{async: async, generator: gen, strict: oldCtx.strict, function: true}
 	p.noIn = false
@@ -219,6 +227,7 @@ func (p *parser) parseClassMember() *Node {
 			kind = "constructor"
 		}
 		m.Name = kind
+		p.noteFunctionKind(m.Start, async, gen)
 		m.B = p.parseMethodFunction(async, gen)
 		if private {
 			switch {
